@@ -48,3 +48,21 @@ func init() {
 		os.Exit(0)
 	}
 }
+
+func init() {
+	if len(os.Args) > 1 && os.Args[1] == "panics" {
+		p, _ := LoadProg("/repo", "", "", nil)
+		for _, fn := range p.Funcs() {
+			instrs(fn, func(_ *ssa.BasicBlock, _ int, in ssa.Instruction) {
+				if pn, ok := in.(*ssa.Panic); ok {
+					msg := describe(pn.X)
+					if len(msg) > 90 {
+						msg = msg[:90]
+					}
+					fmt.Printf("%-28s %-70s %s\n", p.Pos(in.Pos()), fnName(fn), msg)
+				}
+			})
+		}
+		os.Exit(0)
+	}
+}
